@@ -139,10 +139,10 @@ theorem no_match_left (isInst meets : Id → Bool) (l : List Id) (hn : l.Nodup) 
     l.head? = some x := by
   unfold specRemove at hx
   match hm' : (l.filter isInst).filter meets, hsev with
-  | [], hsev => simp [hm'] at hsev
+  | [], hsev => simp at hsev
   | [y], hsev =>
     rw [hm'] at hx
-    simp only [hm', List.length_singleton] at hsev
+    simp only [List.length_singleton] at hsev
     have hl : ¬ l.length ≤ 1 := by omega
     simp only [hl, if_false] at hx
     have hxl : x ∈ l := List.mem_of_mem_erase hx
@@ -176,7 +176,7 @@ theorem non_matching_kept (isInst meets : Id → Bool) (l : List Id) (hn : l.Nod
   · rw [List.filter_filter]
     apply List.filter_congr
     intro y _
-    cases h : (isInst y && meets y) <;> simp [h]
+    cases h : (isInst y && meets y) <;> simp
 
 /-- Non-vacuity: a state with a subclass member, a duplicate, a non-matching
 member in between; three matches, the first element among them. -/
